@@ -1,4 +1,430 @@
-(** C09 — proofs (work in progress). *)
-From Coq Require Import List Bool Arith ZArith.
+(** C09 — proofs: non-interference by induction over schedules. *)
+From Coq Require Import List Bool Arith ZArith Lia.
 Import ListNotations.
 Require Import Nib.C09.Model Nib.C09.Spec.
+
+(** * Invariant: the pointer and the deliver thread only ever designate the deliver thread's
+    StateDB, a request thread only its own. *)
+
+Definition use_ok (t : tid) (o : thread) : Prop := use o = None \/ use o = Some t.
+
+Definition inv (st : state) : Prop :=
+  (ptr st = None \/ ptr st = Some 0%nat) /\ (forall t, use_ok t (thr st t)).
+
+(** a request step is quiet when it cannot reach the shared pointer *)
+Definition quiet (m : mode) (st : state) (t : tid) : Prop :=
+  t = 0%nat \/ m = Isolated \/ hazard st t = false.
+
+Fixpoint quiet_run (m : mode) (st : state) (sched : list tid) : Prop :=
+  match sched with
+  | [] => True
+  | t :: rest => quiet m st t /\ quiet_run m (sched_step m st t) rest
+  end.
+
+(** [only t st st']: st' differs from st in thread t only *)
+Definition only (t : tid) (st st' : state) : Prop :=
+  ptr st' = ptr st /\ (forall k, k <> t -> thr st' k = thr st k) /\ use_ok t (thr st' t).
+
+Lemma only_refl t st : use_ok t (thr st t) -> only t st st.
+Proof. unfold only; auto. Qed.
+
+Lemma only_trans t a b c : only t a b -> only t b c -> only t a c.
+Proof.
+  intros (P1 & T1 & U1) (P2 & T2 & U2). repeat split; try congruence.
+  intros k Hk. rewrite T2, T1; auto.
+Qed.
+
+Lemma thr_set_same st j o : thr (set_thr st j o) j = o.
+Proof. simpl. rewrite Nat.eqb_refl. reflexivity. Qed.
+
+Lemma thr_set_other st j o k : k <> j -> thr (set_thr st j o) k = thr st k.
+Proof. intro H. simpl. destruct (Nat.eqb j k) eqn:E; auto. apply Nat.eqb_eq in E. congruence. Qed.
+
+Lemma only_set t st o : use_ok t o -> only t st (set_thr st t o).
+Proof.
+  intro H. repeat split; auto.
+  - intros k Hk. apply thr_set_other; auto.
+  - rewrite thr_set_same. exact H.
+Qed.
+
+Lemma only_sync_self t st l a : use_ok t (thr st t) -> only t st (sync st (Some t) l a).
+Proof. intro H. apply only_set. exact H. Qed.
+
+Lemma only_add_log t st e : use_ok t (thr st t) -> only t st (add_log st t e).
+Proof. intro H. apply only_set. exact H. Qed.
+
+Lemma only_use t st st' : only t st st' -> use_ok t (thr st' t).
+Proof. intros (_ & _ & H); exact H. Qed.
+
+Ltac uok :=
+  first
+    [ assumption
+    | (unfold use_ok in *;
+       repeat (rewrite ?thr_set_same; cbn [use t_set t_log t_store t_pc t_open t_flush sync add_log]);
+       first [ assumption | right; reflexivity | left; reflexivity | congruence | auto ]) ].
+
+Ltac chain :=
+  lazymatch goal with
+  | |- only ?t ?a ?a => apply only_refl; uok
+  | |- only ?t ?a (add_log ?s ?t _) => apply (only_trans t a s); [chain | apply only_add_log; uok]
+  | |- only ?t ?a (sync ?s (Some ?t) _ _) => apply (only_trans t a s); [chain | apply only_sync_self; uok]
+  | |- only ?t ?a (sync ?s None _ _) => change (only t a s); chain
+  | |- only ?t ?a (set_thr ?a ?t _) => apply only_set; uok
+  | |- only ?t ?a (set_thr ?s ?t _) => apply (only_trans t a s); [chain | apply only_set; uok]
+  | |- _ => assumption
+  end.
+
+(** ** a quiet request step touches its own thread only *)
+Lemma request_step_only m st t :
+  t <> 0%nat -> inv st -> (m = Isolated \/ hazard st t = false) ->
+  only t st (sched_step m st t).
+Proof.
+  intros Ht [Hp Hu] Hq. unfold sched_step.
+  assert (Hut := Hu t).
+  destruct (pc (thr st t)) as [|s rest] eqn:Hpc; [apply only_refl; exact Hut|].
+  set (st1 := set_thr st t (t_pc (thr st t) rest)).
+  assert (H1 : only t st st1) by (apply only_set; exact Hut).
+  assert (Hme : thr st1 t = t_pc (thr st t) rest) by apply thr_set_same.
+  assert (Hpriv : m = Isolated -> private m t = true).
+  { intros ->. simpl. destruct t; [congruence|reflexivity]. }
+  assert (Hhz : m = Shared -> hazard_step st s = false).
+  { intros ->. destruct Hq as [Hq|Hq]; [discriminate|].
+    unfold hazard in Hq. rewrite Hpc in Hq. destruct t; [congruence|]. simpl in Hq. exact Hq. }
+  assert (Hptr1 : ptr st1 = ptr st) by reflexivity.
+  assert (Huse1 : use (thr st1 t) = use (thr st t)) by (rewrite Hme; reflexivity).
+  eapply only_trans; [exact H1|].
+  assert (U1 : use_ok t (thr st1 t)) by (unfold use_ok; rewrite Huse1; exact Hut).
+  (* which StateDB a bank op of this thread mirrors into: its own or none *)
+  assert (Htgt : forall st2, only t st1 st2 -> is_true (match s with SBank _ _ _ | SFee _ _ _ | SRefund _ _ _ => true | _ => false end) ->
+                             target m st2 t = None \/ target m st2 t = Some t).
+  { intros st2 (P2 & _ & U2) Hs. unfold target. destruct m.
+    - simpl. left. rewrite P2, Hptr1. specialize (Hhz eq_refl).
+      destruct s; simpl in Hs; try discriminate; simpl in Hhz; destruct (ptr st); congruence.
+    - rewrite (Hpriv eq_refl). exact U2. }
+  unfold exec. cbv zeta. destruct s.
+  - (* SOpenPub *)
+    destruct m.
+    + specialize (Hhz eq_refl). simpl in Hhz. discriminate.
+    + rewrite (Hpriv eq_refl). apply only_set. right; reflexivity.
+  - (* SOpenPriv *) apply only_set. right; reflexivity.
+  - (* SXfer *)
+    destruct (use (thr st1 t)) as [j|] eqn:Uj; [|chain].
+    assert (j = t) by (destruct U1 as [U|U]; congruence). subst j.
+    destruct (_ <=? _)%Z; chain.
+  - (* SBank *)
+    destruct (use (thr st1 t)) as [j|] eqn:Uj; [|chain].
+    assert (j = t) by (destruct U1 as [U|U]; congruence). subst j.
+    destruct (_ <=? _)%Z; [|chain].
+    match goal with |- only t st1 (add_log (sync (sync ?s2 ?k ?l ?a) ?k ?l ?b) t _) =>
+      assert (H2 : only t st1 s2) by (apply only_set; uok);
+      destruct (Htgt s2 H2 eq_refl) as [E|E]; rewrite E end; chain.
+  - (* SFee *)
+    destruct (_ <=? _)%Z; [|chain].
+    match goal with |- only t st1 (add_log (sync (sync ?s2 ?k ?l ?a) ?k ?l ?b) t _) =>
+      assert (H2 : only t st1 s2) by (apply only_set; uok);
+      destruct (Htgt s2 H2 eq_refl) as [E|E]; rewrite E end; chain.
+  - (* SRefund *)
+    destruct (_ <=? _)%Z; [|apply only_set; exact U1].
+    match goal with |- only t st1 (sync (sync ?s2 ?k ?l ?a) ?k ?l ?b) =>
+      assert (H2 : only t st1 s2) by (apply only_set; uok);
+      destruct (Htgt s2 H2 eq_refl) as [E|E]; rewrite E end; chain.
+  - (* SMark *) apply only_set. exact U1.
+  - (* SSnap *)
+    destruct (use (thr st1 t)) as [j|] eqn:Uj; [|chain].
+    assert (j = t) by (destruct U1 as [U|U]; congruence). subst j.
+    apply only_set. uok.
+  - (* SRevert *)
+    destruct (use (thr st1 t)) as [j|] eqn:Uj; [|chain].
+    assert (j = t) by (destruct U1 as [U|U]; congruence). subst j.
+    destruct (saved (thr st1 t)) as [[[l w] c]|]; [|chain].
+    apply only_set. uok.
+  - (* SCommit *)
+    destruct (use (thr st1 t)) as [j|] eqn:Uj; [|chain].
+    assert (j = t) by (destruct U1 as [U|U]; congruence). subst j.
+    apply only_set. uok.
+  - (* SClear *)
+    destruct m.
+    + specialize (Hhz eq_refl). simpl in Hhz. discriminate.
+    + rewrite (Hpriv eq_refl). chain.
+  - (* SYield *) chain.
+Qed.
+
+Lemma only_inv t st st' : t <> 0%nat -> inv st -> only t st st' -> inv st'.
+Proof.
+  intros Ht [Hp Hu] (P & T & U). split; [rewrite P; exact Hp|].
+  intro k. destruct (Nat.eq_dec k t) as [->|Hk]; [exact U|]. rewrite T; auto.
+Qed.
+
+Lemma only_view t st st' : t <> 0%nat -> only t st st' -> ptr st' = ptr st /\ thr st' 0%nat = thr st 0%nat.
+Proof. intros Ht (P & T & _). split; auto. Qed.
+
+(** ** the deliver step reads and writes the pointer and thread 0 only *)
+
+Definition canon (p : option tid) (o : thread) : state := mkS p (fun _ => o).
+
+Ltac brk :=
+  repeat match goal with
+         | |- context [if ?c then _ else _] => destruct c
+         | |- context [match ?x with Some _ => _ | None => _ end] => destruct x
+         | |- context [let (_, _) := ?x in _] => destruct x
+         end.
+
+Lemma deliver_step_canon m st :
+  inv st ->
+  let st' := sched_step m st 0%nat in
+  let c' := sched_step m (canon (ptr st) (thr st 0%nat)) 0%nat in
+  ptr st' = ptr c' /\ thr st' 0%nat = thr c' 0%nat /\ (forall k, k <> 0%nat -> thr st' k = thr st k) /\ inv st'.
+Proof.
+  intros [Hp Hu]. destruct st as [p th]. simpl in Hp, Hu.
+  assert (Hu0 := Hu 0%nat). unfold use_ok in Hu0.
+  assert (Hk : forall (X Y : thread) k, k <> 0%nat -> (if Nat.eqb 0 k then X else Y) = Y).
+  { intros X Y k Hk. destruct k; [congruence|reflexivity]. }
+  unfold sched_step, canon. cbn [thr ptr].
+  destruct (th 0%nat) as [pc0 store0 wr0 sdb0 use0 saved0 mark0 failed0 log0] eqn:Ho.
+  cbn [pc use] in *.
+  destruct pc0 as [|s rest].
+  { cbn. rewrite Ho. repeat split; auto. }
+  assert (Hinv : forall p' o', (p' = None \/ p' = Some 0%nat) -> use_ok 0%nat o' ->
+                               inv (mkS p' (fun k => if Nat.eqb 0 k then o' else th k))).
+  { intros p' o' Hp' Ho'. split; [exact Hp'|]. intro k. cbn. destruct k; [exact Ho'|apply Hu]. }
+  destruct m; destruct s; destruct Hp as [-> | ->]; destruct Hu0 as [-> | ->];
+    cbn -[Z.leb Z.eqb Z.sub Z.add flush_store flush_wr flush_evs clean c_put c_find];
+    rewrite ?Ho;
+    cbn -[Z.leb Z.eqb Z.sub Z.add flush_store flush_wr flush_evs clean c_put c_find];
+    brk;
+    cbn -[Z.leb Z.eqb Z.sub Z.add flush_store flush_wr flush_evs clean c_put c_find];
+    rewrite ?Ho;
+    (split; [|split; [|split]];
+     [ try reflexivity
+     | try reflexivity
+     | intros k Hk0; cbn; rewrite ?(Hk _ _ k Hk0); reflexivity
+     | first [ apply Hinv; [auto | unfold use_ok; cbn; auto]
+             | (split; [cbn; auto | intro k; cbn; destruct k; [unfold use_ok; cbn; auto | apply Hu]]) ] ]).
+Qed.
+
+Lemma deliver_step_congr m a b :
+  inv a -> inv b -> ptr a = ptr b -> thr a 0%nat = thr b 0%nat ->
+  ptr (sched_step m a 0%nat) = ptr (sched_step m b 0%nat) /\
+  thr (sched_step m a 0%nat) 0%nat = thr (sched_step m b 0%nat) 0%nat /\
+  inv (sched_step m a 0%nat) /\ inv (sched_step m b 0%nat).
+Proof.
+  intros Ia Ib Hp Ht.
+  destruct (deliver_step_canon m a Ia) as (P1 & T1 & _ & I1).
+  destruct (deliver_step_canon m b Ib) as (P2 & T2 & _ & I2).
+  rewrite Hp, Ht in P1, T1. split; [congruence|]. split; [congruence|]. split; assumption.
+Qed.
+
+(** * Main lemma: along a quiet run the block sees the deliver thread alone *)
+
+Lemma deliver_only_cons t rest :
+  deliver_only (t :: rest) = if Nat.eqb 0 t then 0%nat :: deliver_only rest else deliver_only rest.
+Proof. unfold deliver_only, count0. destruct t; reflexivity. Qed.
+
+Lemma quiet_run_same_block m sched : forall a b,
+  inv a -> inv b -> ptr a = ptr b -> thr a 0%nat = thr b 0%nat ->
+  quiet_run m a sched ->
+  same_block (run m sched a) (run m (deliver_only sched) b).
+Proof.
+  induction sched as [|t rest IH]; intros a b Ia Ib Hp Ht Hq.
+  - split; assumption.
+  - destruct Hq as [Hq Hrest]. rewrite deliver_only_cons. unfold run in *. simpl fold_left.
+    destruct t as [|t'].
+    + simpl Nat.eqb. cbn iota. simpl fold_left.
+      destruct (deliver_step_congr m a b Ia Ib Hp Ht) as (P & T & I1 & I2).
+      apply IH; auto.
+    + simpl Nat.eqb. cbn iota.
+      assert (Hne : S t' <> 0%nat) by discriminate.
+      assert (Ho : only (S t') a (sched_step m a (S t'))).
+      { apply request_step_only; auto. destruct Hq as [Hq|Hq]; [discriminate|exact Hq]. }
+      destruct (only_view _ _ _ Hne Ho) as [P T].
+      apply IH; [apply (only_inv (S t') a); assumption | exact Ib | congruence | congruence | exact Hrest].
+Qed.
+
+Lemma inv_init ths l0 : inv (init ths l0).
+Proof. split; [left; reflexivity|]. intro t. left. reflexivity. Qed.
+
+Lemma quiet_run_isolated sched : forall st, quiet_run Isolated st sched.
+Proof. induction sched; intro st; simpl; auto. split; auto. right; left; reflexivity. Qed.
+
+Lemma hazard_free_quiet sched : forall st, hazard_free st sched = true -> quiet_run Shared st sched.
+Proof.
+  induction sched as [|t rest IH]; intros st H; simpl in *; auto.
+  apply andb_true_iff in H as [H1 H2]. split; [|apply IH; exact H2].
+  right; right. apply negb_true_iff in H1. exact H1.
+Qed.
+
+(** ** the theorems *)
+
+Theorem noninterference_isolated : noninterference Isolated.
+Proof.
+  intros ths l0 sched. apply quiet_run_same_block; auto using inv_init, quiet_run_isolated.
+Qed.
+
+Theorem interference_only_through_hazard :
+  forall ths l0 sched,
+    hazard_free (init ths l0) sched = true ->
+    same_block (run Shared sched (init ths l0)) (run Shared (deliver_only sched) (init ths l0)).
+Proof.
+  intros ths l0 sched H. apply quiet_run_same_block; auto using inv_init, hazard_free_quiet.
+Qed.
+
+(** for request scripts built on a private StateDB (no EthereumTx prologue / epilogue: eth_call,
+    estimateGas, traceTx, gRPC queries) the only hazard is a bank operation executed while the
+    pointer is published *)
+Definition private_script (p : list step) : Prop := ~ In SOpenPub p /\ ~ In SClear p.
+
+Definition is_bank_op (s : step) : Prop :=
+  match s with SBank _ _ _ | SFee _ _ _ | SRefund _ _ _ => True | _ => False end.
+
+Theorem hazard_is_bank_op_while_published :
+  forall st t, hazard st t = true -> private_script (pc (thr st t)) ->
+    t <> 0%nat /\ ptr st <> None /\ exists s rest, pc (thr st t) = s :: rest /\ is_bank_op s.
+Proof.
+  intros st t H [N1 N2]. unfold hazard in H. apply andb_true_iff in H as [H0 H].
+  split. { intros ->. discriminate. }
+  destruct (pc (thr st t)) as [|s rest]; [discriminate|].
+  destruct s; simpl in H; try discriminate;
+    try (exfalso; (apply N1 + apply N2); left; reflexivity);
+    (split; [destruct (ptr st); [discriminate|discriminate]|eexists; eexists; split; [reflexivity|exact I]]).
+Qed.
+
+(** a finished thread stutters: the deliver thread alone, scheduled at least as often as it has
+    steps, is the complete sequential execution *)
+Lemma finished_stutters m st : pc (thr st 0%nat) = [] -> sched_step m st 0%nat = st.
+Proof. intro H. unfold sched_step. rewrite H. reflexivity. Qed.
+
+Lemma pc_length_step m st :
+  inv st -> length (pc (thr (sched_step m st 0%nat) 0%nat)) = pred (length (pc (thr st 0%nat))).
+Proof.
+  intro I. destruct (deliver_step_canon m st I) as (_ & T & _ & _). cbv zeta in T. rewrite T. clear T.
+  unfold sched_step, canon. cbn [thr ptr].
+  destruct (pc (thr st 0%nat)) as [|s rest] eqn:Hpc; [cbn; rewrite Hpc; reflexivity|].
+  destruct I as [Hp Hu]. assert (Hu0 := Hu 0%nat). unfold use_ok in Hu0.
+  destruct (thr st 0%nat) as [pc0 store0 wr0 sdb0 use0 saved0 mark0 failed0 log0].
+  cbn [pc use] in *. subst pc0.
+  destruct m; destruct s; destruct Hp as [-> | ->]; destruct Hu0 as [-> | ->];
+    cbn -[Z.leb Z.eqb Z.sub Z.add flush_store flush_wr flush_evs clean c_put c_find]; brk;
+    cbn -[Z.leb Z.eqb Z.sub Z.add flush_store flush_wr flush_evs clean c_put c_find]; reflexivity.
+Qed.
+
+Lemma run_deliver_complete m : forall n k st,
+  inv st -> length (pc (thr st 0%nat)) <= n ->
+  run m (repeat 0%nat (n + k)) st = run m (repeat 0%nat n) st.
+Proof.
+  induction n as [|n IH]; intros k st I L.
+  - simpl. assert (E : pc (thr st 0%nat) = []) by (destruct (pc (thr st 0%nat)); [reflexivity|simpl in L; lia]).
+    clear L. induction k as [|k IHk]; [reflexivity|]. simpl. unfold run in *. simpl.
+    rewrite finished_stutters; auto.
+  - simpl. unfold run in *. simpl. apply IH.
+    + destruct (deliver_step_canon m st I) as (_ & _ & _ & I'). exact I'.
+    + rewrite pc_length_step; auto. lia.
+Qed.
+
+(** ** refutation for the faithful (Shared) model: 5 scheduling decisions *)
+
+Definition w_deliver : list step := [SOpenPub; SCommit; SClear].
+Definition w_query : list step := [SOpenPriv; SBank 1%nat 2%nat 5%Z].
+Definition w_sched : list tid := [0; 1; 1; 0; 0]%nat.
+Definition w_ledger : tid -> ledger := fun _ _ => 10%Z.
+
+Lemma witness_committed :
+  committed (run Shared w_sched (init [w_deliver; w_query] w_ledger)) 1%nat = 5%Z /\
+  committed (run Shared w_sched (init [w_deliver; w_query] w_ledger)) 2%nat = 15%Z /\
+  committed (run Shared (deliver_only w_sched) (init [w_deliver; w_query] w_ledger)) 1%nat = 10%Z /\
+  committed (run Shared (deliver_only w_sched) (init [w_deliver; w_query] w_ledger)) 2%nat = 10%Z.
+Proof. vm_compute. repeat split. Qed.
+
+Theorem noninterference_shared_refuted :
+  exists ths l0 sched,
+    length sched = 5%nat /\
+    committed (run Shared sched (init ths l0)) <> committed (run Shared (deliver_only sched) (init ths l0)).
+Proof.
+  exists [w_deliver; w_query], w_ledger, w_sched. split; [reflexivity|].
+  intro H. apply (f_equal (fun l => l 1%nat)) in H.
+  destruct witness_committed as (A & _ & B & _). rewrite A, B in H. discriminate.
+Qed.
+
+Theorem not_noninterference_shared : ~ noninterference Shared.
+Proof.
+  intro H. specialize (H [w_deliver; w_query] w_ledger w_sched). destruct H as [_ H].
+  apply (f_equal (fun o => store o 1%nat)) in H.
+  destruct witness_committed as (A & _ & B & _). unfold committed in A, B. rewrite A, B in H. discriminate.
+Qed.
+
+(** ** the interleaved run equals the complete sequential run of the deliver thread *)
+Theorem quiet_equals_sequential m ths l0 sched :
+  quiet_run m (init ths l0) sched ->
+  length (nth 0 ths []) <= count0 sched ->
+  let seq := run m (repeat 0%nat (length (nth 0 ths []))) (init ths l0) in
+  let got := run m sched (init ths l0) in
+  committed got = committed seq /\ written got = written seq /\ tx_result got = tx_result seq /\ ptr got = ptr seq.
+Proof.
+  intros Hq Hlen seq got.
+  assert (SB : same_block got (run m (deliver_only sched) (init ths l0))).
+  { apply quiet_run_same_block; auto using inv_init. }
+  assert (E : run m (deliver_only sched) (init ths l0) = seq).
+  { unfold deliver_only, seq.
+    replace (count0 sched) with (length (nth 0 ths []) + (count0 sched - length (nth 0 ths []))) by lia.
+    apply run_deliver_complete; [apply inv_init|]. simpl. destruct ths; simpl; lia. }
+  rewrite E in SB. destruct SB as [P T].
+  unfold committed, written, tx_result. rewrite T. auto.
+Qed.
+
+Theorem isolated_equals_sequential ths l0 sched :
+  length (nth 0 ths []) <= count0 sched ->
+  let seq := run Isolated (repeat 0%nat (length (nth 0 ths []))) (init ths l0) in
+  let got := run Isolated sched (init ths l0) in
+  committed got = committed seq /\ written got = written seq /\ tx_result got = tx_result seq /\ ptr got = ptr seq.
+Proof. intro H. apply quiet_equals_sequential; auto using quiet_run_isolated. Qed.
+
+(** the deliver thread alone behaves the same in both modes (the repair does not change block execution) *)
+Lemma deliver_alone_mode_irrelevant n : forall a b,
+  inv a -> inv b -> ptr a = ptr b -> thr a 0%nat = thr b 0%nat ->
+  same_block (run Shared (repeat 0%nat n) a) (run Isolated (repeat 0%nat n) b).
+Proof.
+  induction n as [|n IH]; intros a b Ia Ib Hp Ht; [split; assumption|].
+  simpl. unfold run in *. simpl.
+  destruct (deliver_step_canon Shared a Ia) as (P1 & T1 & _ & I1).
+  destruct (deliver_step_canon Isolated b Ib) as (P2 & T2 & _ & I2).
+  cbv zeta in *.
+  assert (C : sched_step Shared (canon (ptr a) (thr a 0%nat)) 0%nat = sched_step Isolated (canon (ptr b) (thr b 0%nat)) 0%nat).
+  { rewrite Hp, Ht. unfold sched_step. destruct (pc (thr (canon (ptr b) (thr b 0%nat)) 0%nat)); [reflexivity|].
+    unfold exec, target, private. simpl Nat.eqb. simpl negb. reflexivity. }
+  apply IH; auto; congruence.
+Qed.
+
+(** ** non-vacuity *)
+
+(** Isolated mode: the witness schedule really interleaves a request that performs a bank
+    operation (X of the request's own ctx goes 10 -> 5) and the block still commits X = 10 *)
+Example partial_nonvacuous :
+  let st := run Isolated w_sched (init [w_deliver; w_query] w_ledger) in
+  committed st 1%nat = 10%Z /\ committed st 2%nat = 10%Z /\ store (thr st 1%nat) 1%nat = 5%Z /\
+  pc (thr st 0%nat) = [] /\ pc (thr st 1%nat) = [].
+Proof. vm_compute. repeat split. Qed.
+
+(** Shared mode, hazard-free: a value transfer of a request in the middle of the in-flight tx
+    and a bank operation of a request before the tx publishes its StateDB *)
+Definition nv_deliver : list step := [SOpenPub; SXfer 1%nat 3%nat 4%Z; SYield; SBank 1%nat 2%nat 1%Z; SCommit; SClear].
+Definition nv_q1 : list step := [SOpenPriv; SBank 1%nat 2%nat 5%Z].
+Definition nv_q2 : list step := [SOpenPriv; SXfer 1%nat 2%nat 7%Z; SCommit].
+Definition nv_sched : list tid := [1; 1; 0; 0; 0; 2; 2; 2; 0; 0; 0]%nat.
+
+Example hazard_free_nonvacuous :
+  let st0 := init [nv_deliver; nv_q1; nv_q2] w_ledger in
+  let st := run Shared nv_sched st0 in
+  hazard_free st0 nv_sched = true /\
+  committed st 1%nat = 5%Z /\ committed st 2%nat = 11%Z /\ committed st 3%nat = 14%Z /\
+  store (thr st 1%nat) 1%nat = 5%Z /\ store (thr st 2%nat) 2%nat = 17%Z.
+Proof. vm_compute. repeat split. Qed.
+
+(** the refuting schedule contains exactly such a hazard *)
+Example refuted_has_hazard : hazard_free (init [w_deliver; w_query] w_ledger) w_sched = false.
+Proof. vm_compute. reflexivity. Qed.
+
+Example hazard_class_nonvacuous :
+  let st := run Shared [0; 1]%nat (init [w_deliver; w_query] w_ledger) in
+  hazard st 1%nat = true /\ private_script (pc (thr st 1%nat)).
+Proof.
+  split; [vm_compute; reflexivity|]. vm_compute. split; intros [H|[]]; discriminate.
+Qed.
